@@ -21,6 +21,7 @@ MANIFEST = dict(
         technique="TLA+ spec + TLC exhaustive check; TLC-generated cases replayed into the C code; TLC rendering/validation of seeded documents",
         design="5/C09")
 
+TMO = {"quick": 240, "thorough": 800, "replay": 240}
 CFG = {
     "quick":    dict(mc=["MC_ConfText.cfg", "MC_ConfText_u.cfg"], gen="Gen_ConfText.cfg", ndocs=40, nitems=12),
     "thorough": dict(mc=["MC_ConfText_t.cfg", "MC_ConfText_tu.cfg"], gen="Gen_ConfText_t.cfg", ndocs=400, nitems=30),
@@ -97,14 +98,14 @@ def signature(step, rec, why):
     nmax = max([rlen(x["n"]) for x in nodes] or [0])
     if obs.get("ret") != exp.get("ret"):
         # refused document: classify by the most extreme element it contains
+        if any(46 in [b for b, _ in x["n"]] for x in nodes):
+            return "parse:refused:name_contains_path_sep"
         if vmax >= 65536:
             return "parse:refused:value_len>=65536"
         if vmax >= 250:
             return "parse:refused:value_len>=250"
         if nmax >= 256:
             return "parse:refused:name_len>=256"
-        if any(46 in [b for b, _ in x["n"]] for x in nodes):
-            return "parse:refused:name_contains_path_sep"
         return "parse:refused:%s" % st
     d = first_diff(tree, obs.get("tree") or [])
     if d:
@@ -185,9 +186,11 @@ def gen_docs(ck, n, nitems):
     rng = ck.rng
     gaps = ["none", "sp", "tab", "nl", "blank", "crlf", "com", "spcom"]
     blanks = ["none", "sp", "tab", "sp2", "mix"]
-    docs = []
+    dflt = {"g": "none", "g2": "none", "b1": "sp", "b2": "sp", "b3": "none", "term": "nl"}
+    docs = [{"a": "doc", "arg": {"fmt": [0], "acc": [0], "items": [            # fixed: a name with the path separator
+        {"k": "opt", "n": runs_of(list(b"a.b")), "v": runs_of(list(b"1")), "q": 0, "d": dflt}]}}]
     alpha = list(b"abcXYZ") + list(b"019") + list(b"_-+/:@!$%&*()[]{}<>|.,;=#'\"`\\~^?") + [32, 32, 9] + [128, 200, 255, 1, 27]
-    for _ in range(n):
+    for _ in range(n - 1):
         fmt, acc = rng.choice(SHIPPED)
         items = []
         for _ in range(rng.randrange(1, nitems + 1)):
@@ -195,7 +198,13 @@ def gen_docs(ck, n, nitems):
             def word(maxlen, pool):
                 k = rng.choice([0, 1, 1, 2, 3, 5, 8, maxlen])
                 return [rng.choice(pool) for _ in range(k)]
-            name = word(12, alpha if rng.random() < 0.5 else list(b"abcdefgh12"))
+            r = rng.random()
+            if r < 0.6:
+                name = [rng.choice(list(b"abcdefgh"))] + word(8, list(b"abcdefgh12_"))
+            elif r < 0.8:
+                name = word(12, list(b"abcdefgh12 _-+/:@$%&*()|,~^?"))
+            else:
+                name = word(12, alpha)
             if rng.random() < 0.04:
                 name = [97] * rng.choice([254, 255, 256, 300])
             if rng.random() < 0.3:
@@ -209,9 +218,27 @@ def gen_docs(ck, n, nitems):
                 val = [121] * rng.choice([65534, 65535, 65536, 65537, 70000])
             d = {"g": rng.choice(gaps), "g2": rng.choice(gaps), "b1": rng.choice(blanks), "b2": rng.choice(blanks),
                  "b3": rng.choice(blanks), "term": rng.choice(["nl", "nl", "com", "eof"])}
-            items.append({"k": kind, "n": runs_of(name), "v": runs_of(val), "q": rng.choice([0, 0, 34, 39, 96]), "d": d})
+            if d["term"] == "com" and d["b3"] == "none":
+                d["b3"] = "sp"
+            if kind == "open":
+                d["g2"] = rng.choice(["none", "none", "nl", "blank", "spcom"])
+                if rng.random() < 0.5:
+                    d["b1"] = "none"
+            items.append({"k": kind, "n": runs_of(name), "v": runs_of(val), "q": rng.choice([1] * 6 + [2] * 2 + [0, 34, 39, 96]), "d": d})
         docs.append({"a": "doc", "arg": {"fmt": fmt, "acc": acc, "items": items}})
     return docs
+
+
+def tlc_retry(module, cfg, timeout, **kw):
+    """vlib.tlc with a bounded run time; a run that exceeds it (starved machine, stuck JVM) is repeated once."""
+    tag = kw.pop("tag", module)
+    vlib.log("tlc %s %s ..." % (module, cfg))
+    res = vlib.tlc(module, cfg, timeout=timeout, tag=tag, **kw)
+    if res.rc == -1:
+        vlib.log("tlc %s %s exceeded %ss, once more" % (module, cfg, timeout))
+        res = vlib.tlc(module, cfg, timeout=timeout * 2, tag=tag, **kw)
+    vlib.log("tlc %s %s done in %.1fs" % (module, cfg, res.wall))
+    return res
 
 
 def script(behs, offset=0):
@@ -231,6 +258,7 @@ def run_guarded(exe, behs, chunk=2000, max_faults=25, timeout=900):
     recs, done, faults = [], 0, 0
     while done < len(behs):
         part = behs[done:done + chunk]
+        vlib.log("driver: behaviours %d..%d of %d" % (done, done + len(part), len(behs)))
         r, _ = vlib.run_driver(exe, script(part, done), timeout=timeout)
         recs += r
         done += len(part)
@@ -248,7 +276,7 @@ def render_docs(docs, tag):
     with open(path, "w") as f:
         for e in docs:
             f.write(json.dumps(e, separators=(",", ":")) + "\n")
-    res = vlib.tlc("Trace_ConfText", "Trace_ConfText.cfg", workers=1, env={"TRACE": path}, xss="512m", tag=tag)
+    res = tlc_retry("Trace_ConfText", "Trace_ConfText.cfg", 600, workers=1, env={"TRACE": path}, xss="512m", tag=tag)
     if res.error or res.violation:
         raise vlib.MachineryError("rendering of seeded documents failed: %s %s\n%s" % (res.error, res.violation, res.out[-2000:]))
     os.unlink(path)
@@ -263,15 +291,26 @@ def run(tier):
     # the three TLC jobs are independent: run them side by side
     def job_model():
         # 1. model: scanner (Tier 2) implements the written value (ASSUME ScanChecked), TypeOK, unambiguity
-        r1 = vlib.tlc("MC_ConfText", cfg["mc"][0], workers=4)
+        r1 = tlc_retry("MC_ConfText", cfg["mc"][0], TMO[tier], workers=4)
         r2 = None
         if r1.ok:
-            r2 = vlib.tlc("MC_ConfText", cfg["mc"][1], workers=4, env={"EXPECT_DISTINCT": r1.distinct, "SKIP_SCAN": "1"}, tag="MC_ConfText_u")
+            r2 = tlc_retry("MC_ConfText", cfg["mc"][1], TMO[tier], workers=4, env={"EXPECT_DISTINCT": r1.distinct, "SKIP_SCAN": "1"},
+                           tag="MC_ConfText_u")
         return r1, r2
+
+    # generator steering only (no verdict): while the open finding "name contains the path separator"
+    # still reproduces, the exported alphabet leaves such names out so that documents are not cut short
+    # at them; the seeded documents below keep exercising (and reporting) it
+    genv = {"SKIP_SCAN": "1"}
+    if ck.signature_known("parse:refused:name_contains_path_sep"):
+        pr, _ = vlib.run_driver(exe, script([[{"a": "parse", "arg": {"fmt": [[0, 1]], "acc": [[0, 1]], "text": runs_of(list(b"a.b = 1\n"))}}]]))
+        if pr and (pr[0].get("obs") or {}).get("ret") == "error":
+            genv["AVOID_DOT"] = "1"
+    ck.notes["generator_avoids_dotted_names"] = "AVOID_DOT" in genv
 
     def job_gen():
         # 2. binding A: every generated case parsed by the real code
-        g = vlib.tlc("Gen_ConfText", cfg["gen"], workers=4, env={"SKIP_SCAN": "1"})
+        g = tlc_retry("Gen_ConfText", cfg["gen"], TMO[tier], workers=4, env=genv)
         if g.error or g.violation:
             raise vlib.MachineryError("case export failed: %s %s" % (g.error, g.violation))
         return vlib.parse_behaviours(g.out), g
